@@ -626,10 +626,20 @@ Module Examples.
   Definition OR : bytes -> option Z := fun _ => None.
   Definition tx (s : list nat) : bytes := map (fun n => byte_of_N (N.of_nat n)) s.
 
-  Definition round_trips (t : ty) (v : val) : Prop :=
-    wf OD 0 t v /\ exists b, enc 400 t v = Ok b /\ unmarshal OD OR t b = Ok v.
-  Ltac rt_ok := split; [apply (wfb_sound OD 400); vm_compute; reflexivity
-                       | eexists; split; vm_compute; reflexivity].
+  Definition rt (t : ty) (v : val) : outcome val :=
+    match enc 400 t v with Ok b => unmarshal OD OR t b | Err e => Err e | Panic p => Panic p | OutOfFuel => OutOfFuel end.
+  Definition rt_okb (t : ty) (v : val) : bool :=
+    match rt t v with Ok v' => val_eqb v' v | _ => false end.
+  Lemma rt_okb_spec t v : rt_okb t v = true -> exists b, enc 400 t v = Ok b /\ unmarshal OD OR t b = Ok v.
+  Proof.
+    unfold rt_okb, rt. destruct (enc 400 t v) as [b| | |]; try discriminate.
+    destruct (unmarshal OD OR t b) as [v'| | |] eqn:EU; try discriminate.
+    intros H. apply val_eqb_sound in H. subst. exists b. now split.
+  Qed.
+
+  (* wf at depth 0, and unmarshal (enc v) = v  (boolean form so that big values stay inside vm_compute) *)
+  Definition round_trips (t : ty) (v : val) : Prop := wf OD 0 t v /\ rt_okb t v = true.
+  Ltac rt_ok := split; [apply (wfb_sound OD 400); vm_compute; reflexivity | vm_compute; reflexivity].
 
   Definition st1 := TStruct [(false, TInt KU8); (true, TText); (false, TBool)].
   Example ex_struct_omit : round_trips st1 (VList [VInt 5; VText []; VBool true]).
@@ -680,8 +690,6 @@ Module Examples.
   Proof. rt_ok. Qed.
 
   (* ---- counterexamples: each violates exactly one side condition and does not round-trip ---- *)
-  Definition rt (t : ty) (v : val) : outcome val :=
-    match enc 400 t v with Ok b => unmarshal OD OR t b | Err e => Err e | Panic p => Panic p | OutOfFuel => OutOfFuel end.
   Ltac cx := vm_compute; reflexivity.
 
   Example cx_int_range : rt (TInt KU8) (VInt 256) = Err EType. Proof. cx. Qed.
